@@ -61,8 +61,10 @@ def gen_scenario(rng):
     r = rng.random()
     if r < 0.6:
         sc["set_version"] = None
-    elif r < 0.8:
+    elif r < 0.7:
         sc["set_version"] = pr["new"]
+    elif r < 0.8:
+        sc["set_version"] = refimpl.render_respelled(tree, pr["new_state"], rng) or pr["new"]      # accepted, but not how the pattern renders it
     elif r < 0.9:
         sc["set_version"] = pr["old"]                       # not greater: rejected
     else:
@@ -221,6 +223,24 @@ def oracle(pr, sc, res, obs):
     return None
 
 
+class _Observed:
+    """the model's answer as an outside observer sees it: a rewrite that writes the very same content (e.g. --set-version equal to what the
+    files already show, started from an older tag) cannot be seen in the files, so it is not an observable event"""
+
+    def __init__(self, driver):
+        self.driver = driver
+
+    def available(self):
+        return self.driver.available()
+
+    def run(self, ops):
+        outs = self.driver.run(ops)
+        for o, r in zip(ops, outs):
+            if isinstance(r, dict) and "trace" in r and r.get("files") == o["files"]:
+                r["trace"] = [e for e in r["trace"] if e != "rewrite"]
+        return outs
+
+
 def run(chk, driver, n, label="update_full"):
     rng = chk.rng
     ops, results = [], []
@@ -238,4 +258,4 @@ def run(chk, driver, n, label="update_full"):
         ops.append(op)
         results.append(res)
     it = iter(results)
-    chk.correspond(ops, lambda op: next(it), driver, label=label)
+    chk.correspond(ops, lambda op: next(it), _Observed(driver), label=label)
